@@ -34,6 +34,15 @@ fn c04_ring(p: Quaternion<R>, q: Quaternion<R>, r: Quaternion<R>, a: R) {
     vassert_eq("p*a", p * a, Quaternion::from_sv(p.s * a, v3(p.v.x * a, p.v.y * a, p.v.z * a)));
     vassume(a != R(0.0));
     vassert_eq("p/a", p / a, Quaternion::from_sv(p.s / a, v3(p.v.x / a, p.v.y / a, p.v.z / a)));
+    // the same ring, spelled with references and in place (a sum built with += and then multiplied is still distributive)
+    let mut t = q; t += r;
+    vassert_eq("p(q += r)", p * t, p * q + p * r);
+    let mut u = q; u -= r;
+    vassert_eq("p(q -= r)", p * u, p * q - p * r);
+    let mut w = p; w *= a; vassert_eq("p *= a", w, p * a);
+    let mut x = p; x /= a; vassert_eq("p /= a", x, p / a);
+    vassert_eq("&p * &q", &p * &q, p * q);
+    vassert_eq("&p + &q", &p + &q, p + q);
     vcover("end");
 }
 fn c04_inverse(q: Quaternion<R>) {
